@@ -116,7 +116,9 @@ def check_bounds(ctx, cfg, site, seed, act, tree, trace, run, start):
 
 SEEDS = ["http://site.example/", "http://site.example/", "http://site.example/chain/1", "http://site.example/deep/1.json", "http://site.example/loop/a",
          "http://site.example/red/1", "http://site.example/api/data.json", "http://site.example/nest", "http://site.example/hub",
-         "http://site.example/api/feed.json", "http://site.example/api/feed.json", "http://site.example/paged/1", "http://site.example/paged/2"]
+         "http://site.example/api/feed.json", "http://site.example/api/feed.json", "http://site.example/paged/1", "http://site.example/paged/2",
+         "http://site.example/feed.xml", "http://site.example/feed.xml", "http://site.example/feedok.xml", "http://site.example/api/cut.json",
+         "http://site.example/rnest/1.json", "http://site.example/rdeep/1.json", "http://site.example/list.m3u8"]
 
 
 def gen_site(r):
@@ -137,9 +139,22 @@ def gen_site(r):
     # pages that advertise further pages through the Link response header (rel=next chains)
     s.add("http://site.example/paged/1", outlinks=["/page2"], link='<http://site.example/paged/2>; rel="next", <http://other.example/alt>; rel="alternate"')
     s.add("http://site.example/paged/2", outlinks=[], link='<http://site.example/paged/3>; rel="next"')
+    # structured documents cut off in the middle (a parse error after some URLs were already seen) and complete ones
+    s.add("http://site.example/feed.xml", ctype="application/xml", kind="raw",
+          body='<?xml version="1.0" encoding="UTF-8"?><rss><channel><item><link>http://site.example/page/9</link>'
+               '<enclosure url="http://site.example/img/e.png"/></item><item><link>http://other.example/feed/next</link><a href=unquoted>x</a>'
+               '<item><link>http://site.example/page/10</link><enclosure url="http://site.example/im')
+    s.add("http://site.example/feedok.xml", ctype="application/xml", kind="raw",
+          body='<?xml version="1.0" encoding="UTF-8"?><rss><channel><item><link>http://site.example/page/8</link>'
+               '<enclosure url="http://site.example/img/f.png"/></item><item><link>http://dc.example/in</link></item></channel></rss>')
+    s.add("http://site.example/api/cut.json", ctype="application/json", kind="raw",
+          body='{"a": "http://site.example/page/4", "b": ["http://site.example/img/x.png", "http://other.example/more"')
+    s.add("http://site.example/list.m3u8", ctype="application/vnd.apple.mpegurl", kind="raw",
+          body="#EXTM3U\n#EXT-X-VERSION:3\n#EXTINF:4,\nseg0.ts\n#EXTINF:4,\nhttp://site.example/rnest/1.json\n#EXT-X-ENDLIST\n")
     if r.random() < 0.3:
         s.pages["http://site.example/"]["link"] = '<http://site.example/paged/1>; rel="next"'
-    s.pages["http://site.example/"]["assets"] += r.sample(["/exact/1", "/chain/7", "/deep/3.json", "/hubred", "/nest", "/api/feed.json"], r.randrange(0, 3))
+    s.pages["http://site.example/"]["assets"] += r.sample(["/exact/1", "/chain/7", "/deep/3.json", "/hubred", "/nest", "/api/feed.json", "/feed.xml", "/feedok.xml",
+                                                            "/api/cut.json", "/rnest/1.json", "/list.m3u8"], r.randrange(0, 3))
     return s
 
 
@@ -192,15 +207,28 @@ def visits(ctx, n):
         scns.append(({"useHQ": True, "seeds": ["/v%d/" % k], "site": site, "stop": {"when": "drain", "timeoutMs": 60000},
                       "cfg": {"workers": 1, "maxConcurrentAssets": r.choice([1, 4]), "maxRetry": mr, "httpTimeout": 3, "hqBatchSize": 1,
                               "warcAsync": k % 2 == 1}}, scripts, mr))
+    # the same with the per-host limiter on (the default of the crawler): a URL that keeps answering 429 / 503
+    for k2, code in enumerate([429, 503][: 2 if ctx.thorough() else 1]):
+        path = "/t%d/a.png" % k2
+        site = {path: {"ctype": "image/png", "body": {"kind": "png", "size": 50, "seed": 1}, "attempts": [{"status": code}] * 6},
+                "/t%d/" % k2: {"ctype": "text/html", "body": {"kind": "html", "assets": [path], "outlinks": []}}}
+        scns.append(({"useHQ": True, "seeds": ["/t%d/" % k2], "site": site, "stop": {"when": "drain", "timeoutMs": 45000},
+                      "cfg": {"workers": 1, "maxConcurrentAssets": 1, "maxRetry": 1, "httpTimeout": 3, "hqBatchSize": 1, "disableRateLimit": False,
+                              "rateLimitCapacity": 5, "rateLimitRefillRate": 5}}, {path: [code] * 6}, 1))
     results = e2e.run_many([s for s, _, _ in scns], timeout=120, workers=10)
     lines, keys = [], []
     for (scn, scripts, mr), (rep, err) in zip(scns, results):
         rp = {"domain": "e2e", "scenario": scn}
+        by = e2e.requests_by_key(rep) if rep.get("requests") is not None else {}
         if not rep.get("drained"):
-            ctx.violation("the crawl of a page with failing assets did not finish: %s %s" % (
-                {k: v for k, v in rep.items() if k not in ("requests", "warcRecords", "jobFiles")}, "" if rep.get("panic") else err[-300:]), rp)
+            over = {p: len(by.get(p, [])) for p in scripts if len(by.get(p, [])) > mr + 1}
+            if over:
+                ctx.violation("%s requested %s times in one visit with --max-retry %d and the seed never finished (site script %s)" % (
+                    sorted(over)[0], over[sorted(over)[0]], mr, scripts[sorted(over)[0]]), dict(rp, url=sorted(over)[0]))
+            else:
+                ctx.violation("the crawl of a page with failing assets did not finish: %s %s" % (
+                    {k: v for k, v in rep.items() if k not in ("requests", "warcRecords", "jobFiles")}, "" if rep.get("panic") else err[-300:]), rp)
             continue
-        by = e2e.requests_by_key(rep)
         for path, sc in scripts.items():
             got = len(by.get(path, []))
             ctx.count("visits")
